@@ -12,7 +12,7 @@ const RULE: &str = "cases are (a) the COMPLETE product of event classes — kind
 
 const KINDS: usize = 11;
 const EXTENTS: usize = 4;
-const VALUES: usize = 18;
+const VALUES: usize = 20;
 const AGGS: usize = 6;
 const PER_CONFIG: usize = KINDS * EXTENTS * VALUES * AGGS;
 
@@ -83,7 +83,10 @@ impl ClassCase {
             14 => (ValueSpec::Bool(true), Capture::Sval),
             15 => (ValueSpec::Missing, Capture::Sval),
             16 => (ValueSpec::U64(u64::MAX), Capture::Sval),
-            _ => (ValueSpec::U64(i64::MAX as u64 + 1), Capture::Sval),
+            17 => (ValueSpec::U64(i64::MAX as u64 + 1), Capture::Sval),
+            // numeric sequences whose running total overflows (i64) / leaves the finite doubles: still numeric sequences
+            18 => (ValueSpec::Seq(vec![Num::I(i64::MAX), Num::I(1)]), Capture::Sval),
+            _ => (ValueSpec::Seq(vec![Num::FMax { neg: false }, Num::FMax { neg: false }]), Capture::Serde),
         };
         let agg = match self.agg {
             0 => AggSpec::Absent,
@@ -323,7 +326,13 @@ fn kind_text() -> impl Strategy<Value = String> {
 }
 
 fn num() -> impl Strategy<Value = Num> {
-    prop_oneof![any::<i64>().prop_map(Num::I), (-100_000i64..100_000).prop_map(Num::I), any::<i32>().prop_map(Num::F)]
+    prop_oneof![
+        4 => any::<i64>().prop_map(Num::I),
+        4 => (-100_000i64..100_000).prop_map(Num::I),
+        4 => any::<i32>().prop_map(Num::F),
+        1 => prop_oneof![Just(i64::MAX), Just(i64::MIN), Just(i64::MAX - 1)].prop_map(Num::I),
+        1 => any::<bool>().prop_map(|neg| Num::FMax { neg }),
+    ]
 }
 
 fn event() -> impl Strategy<Value = EventSpec> {
@@ -352,6 +361,9 @@ fn event() -> impl Strategy<Value = EventSpec> {
         1 => any::<bool>().prop_map(|neg| ValueSpec::Inf { neg }),
         4 => prop::collection::vec(num(), 0..6).prop_map(ValueSpec::Seq),
         2 => prop::collection::vec((-50i64..50).prop_map(Num::I), 1..40).prop_map(ValueSpec::Seq),
+        // extreme elements: the running total overflows i64 / leaves the finite doubles
+        1 => prop::collection::vec(prop_oneof![Just(Num::I(i64::MAX)), Just(Num::I(i64::MIN)), (1i64..5).prop_map(Num::I)], 2..5).prop_map(ValueSpec::Seq),
+        1 => prop::collection::vec(prop_oneof![any::<bool>().prop_map(|neg| Num::FMax { neg }), any::<i32>().prop_map(Num::F)], 2..5).prop_map(ValueSpec::Seq),
         1 => prop::collection::vec(prop::collection::vec(any::<i64>(), 0..3), 1..4).prop_map(ValueSpec::Nested),
         1 => (0u8..4).prop_map(ValueSpec::SeqWithText),
         2 => prop::sample::select(vec!["hello", "42", "1.5", "", "NaN", "[1,2]"]).prop_map(|s| ValueSpec::Text(s.to_string())),
@@ -430,6 +442,7 @@ fn main() {
             s.require("value:huge-u64", 100);
             s.require("value:empty-seq", 100);
             s.require("value:nested-seq", 100);
+            s.require("value:seq-whose-running-total-leaves-i64-or-the-finite-doubles", 1000);
             s.require("wire:HttpProto", 100);
             s.require("wire:HttpJson", 100);
             s.require("wire:GrpcProto", 100);
